@@ -17,7 +17,12 @@
 //!  * `misrouted`: a datagram sent to an id arrives exactly on the connection that was active;
 //!  * `notice-mismatch`: displaced ⇒ told "same endpoint id connected", promoted ⇒ told
 //!    "healthy" (V1: as Health text), entry removed ⇒ exactly the peers in its `sent_to` set are
-//!    told "endpoint gone" — each iff the receiving queue has room — and no other notice.
+//!    told "endpoint gone" — each iff the receiving queue has room — and no other notice;
+//!  * `not-promoted-after-exit`: timed cases (`cap:T` = write timeout, `slow c ms`, paused clock) —
+//!    a connection whose client stopped reading (never accepts a frame within the write timeout)
+//!    and that was written to must have left the registry by the time the relay is quiescent
+//!    again: its actor hit the write timeout, so it unregisters at once, whatever is still unsent,
+//!    and the previous connection of the id is promoted (checked by `registry-mismatch`).
 #[path = "../relayreg.rs"]
 mod relayreg;
 use relayreg::*;
@@ -178,6 +183,50 @@ fn random_script(rng: &mut Rng, max_ops: usize) -> Script {
     Script { cap, write_timeout_ms: None, ops }
 }
 
+/// 2–3 connections of endpoint 0 and a peer; the active one's client stops reading (or is merely
+/// slow, within the budget) and gets a burst; then probes show who is active.
+fn timed_case(rng: &mut Rng) -> String {
+    let t = *rng.pick(&[20u64, 50, 100]);
+    let nmain = rng.range(2, 3) as usize;
+    let mut ops: Vec<String> = Vec::new();
+    for _ in 0..nmain {
+        ops.push(format!("reg 0 {}", rng.range(1, 2)));
+    }
+    let peer = nmain;
+    ops.push("reg 1 2".into());
+    if rng.chance(1, 2) {
+        // the main endpoint has sent to the peer: a peer-gone notice is owed when its entry goes
+        ops.push(format!("send {} 1 s 0 0 {}", nmain - 1, hex(&rng.bytes(2))));
+    }
+    let mut dead = 0;
+    let rounds = rng.range(1, nmain as u64) as usize;
+    for r in 0..rounds {
+        let active = nmain - 1 - dead;
+        let never = rng.chance(3, 4);
+        let ms = if never { 100_000 } else { rng.range(t / 2, t - 1) };
+        ops.push(format!("slow {active} {ms}"));
+        let burst = rng.range(1, 8);
+        if rng.bool() {
+            ops.push(format!("stall {peer}"));
+            for i in 0..burst {
+                ops.push(format!("send {peer} 0 s 0 0 {}", hex(&[r as u8, i as u8])));
+            }
+            ops.push(format!("unstall {peer}"));
+        } else {
+            for i in 0..burst {
+                ops.push(format!("send {peer} 0 s 0 0 {}", hex(&[r as u8, i as u8])));
+            }
+        }
+        if never {
+            dead += 1;
+        } else {
+            ops.push(format!("slow {active} 0"));
+        }
+        ops.push(format!("send {peer} 0 s 1 0 {}", hex(&rng.bytes(3))));
+    }
+    format!("{}:{t};{}", rng.pick(&[2usize, 4, 16]), ops.join(";"))
+}
+
 /// The alphabet of the exhaustive small-scope enumeration (after the prelude `reg 1 2`).
 fn alphabet() -> Vec<Op> {
     let send = |c: usize, dst: usize, t: &str| Op::Send { c, dst, batch: false, ecn: 0, seg: 0, tok: t.into() };
@@ -216,6 +265,21 @@ impl Prop for C06 {
             "2;reg 0 2;reg 0 2;stall 1;disc 0 *;reg 0 2;unstall 1;close 2",
         ] {
             out.push(s.to_string());
+        }
+        // timed: the ACTIVE connection's client stops reading and gets a burst — its actor hits the
+        // write timeout (50 ms), must unregister at once, the previous connection resumes
+        for s in [
+            "4:50;reg 0 2;reg 0 2;reg 1 2;slow 1 100000;stall 2;send 2 0 s 0 0 aa;send 2 0 s 0 0 bb;send 2 0 s 0 0 cc;unstall 2;send 2 0 s 0 0 dd;close 0;send 2 0 s 0 0 ee",
+            "4:50;reg 0 1;reg 0 2;reg 0 2;reg 1 2;slow 2 100000;slow 1 100000;send 3 0 s 0 0 aa;send 3 0 s 0 0 bb;send 3 0 s 0 0 cc",
+            "4:50;reg 0 2;reg 1 2;send 0 1 s 0 0 aa;slow 0 100000;send 1 0 s 0 0 bb;send 1 0 s 0 0 cc",
+            "4:50;reg 0 2;reg 0 2;reg 1 2;slow 1 30;stall 2;send 2 0 s 0 0 aa;send 2 0 s 0 0 bb;send 2 0 s 0 0 cc;unstall 2;slow 1 0;send 2 0 s 0 0 dd",
+            "4;reg 0 2;reg 0 2;reg 1 2;slow 1 2001;send 2 0 s 0 0 aa;send 2 0 s 0 0 bb",
+        ] {
+            out.push(s.to_string());
+        }
+        let ntimed = if tier == Tier::Thorough { 200 } else { 25 };
+        for _ in 0..ntimed {
+            out.push(timed_case(rng));
         }
         // a queue of the crate's default depth filled exactly to the brim
         {
@@ -309,6 +373,7 @@ fn oracle(script: &Script, tr: &Trace, ex: &mut Exec) {
     let mut doomed: Vec<bool> = Vec::new(); // closed / cancelled while stalled: exits on unstall without delivering
     let mut queued: Vec<Vec<Notice>> = Vec::new(); // notices waiting in a stalled connection's queue
     let mut queued_pkts: Vec<usize> = Vec::new();
+    let mut slow: Vec<u64> = Vec::new(); // ms the client takes to accept one frame
     // frames a stalled connection's client has sent and the relay has not read yet:
     // Some((dst, forwardable)) = datagram, None = end of stream / undecodable frame
     let mut backlog: Vec<Vec<Option<(usize, bool)>>> = Vec::new();
@@ -338,6 +403,7 @@ fn oracle(script: &Script, tr: &Trace, ex: &mut Exec) {
                 doomed.push(false);
                 queued.push(Vec::new());
                 queued_pkts.push(0);
+                slow.push(0);
                 backlog.push(Vec::new());
                 cancelled.push(false);
                 let l = open.entry(*id).or_default();
@@ -348,6 +414,7 @@ fn oracle(script: &Script, tr: &Trace, ex: &mut Exec) {
                 l.push(c);
             }
             Op::Stall { c } if *c < nconn && !gone_conn[*c] => stalled[*c] = true,
+            Op::Slow { c, ms } if *c < nconn => slow[*c] = *ms,
             Op::Close { c } | Op::Bad { c } if *c < nconn && stalled[*c] => {
                 doomed[*c] = true;
                 backlog[*c].push(None);
@@ -433,6 +500,20 @@ fn oracle(script: &Script, tr: &Trace, ex: &mut Exec) {
                         extra_sent.entry(tr.owner[*c]).or_default().push(dst);
                     }
                 }
+            }
+        }
+        // -- a client that does not accept a frame within the write timeout: the actor's write
+        //    times out, the actor exits and unregisters at once
+        for (c, fs) in &st.frames {
+            if slow[*c] > tr.wt_ms && !fs.is_empty() && !st.ended.contains(c) && !gone_conn[*c] {
+                ex.violation(
+                    "not-promoted-after-exit",
+                    format!(
+                        "step {i}: connection {c} was written to, its client never accepted the frame within {} ms, but it is still there: {}",
+                        tr.wt_ms,
+                        Trace::snap_str(&st.snap)
+                    ),
+                );
             }
         }
         // -- connections that ended
@@ -525,6 +606,11 @@ fn oracle(script: &Script, tr: &Trace, ex: &mut Exec) {
                 }
             }
             let want = want_now.remove(&c).unwrap_or_default();
+            // a connection whose client stopped reading may have written one notice into the pipe
+            // before its write timed out
+            if st.ended.contains(&c) && slow[c] > tr.wt_ms {
+                continue;
+            }
             if got != want {
                 ex.violation("notice-mismatch", format!("step {i} conn {c}: notices {got:?}, expected {want:?}"));
             }
